@@ -618,6 +618,23 @@ func mutate1(b *pb.InternalBlock, p base, a []string, arg func(int) int) string 
 		b.MerkleTree = ledger.MakeMerkleTree(b.Transactions)
 		b.MerkleTree[len(b.MerkleTree)-1] = append([]byte{}, b.MerkleRoot...)
 		return "accept"
+	case "fixlevels":
+		// ... or recompute only the k lowest levels (leaves = level 0) and keep every node above them as signed
+		k := arg(1)
+		nt := ledger.MakeMerkleTree(b.Transactions)
+		if len(b.MerkleTree) == 0 || len(nt) != len(b.MerkleTree) {
+			return ""
+		}
+		cnt, w := 0, (len(nt)+1)/2
+		for j := 0; j < k && w >= 1; j++ {
+			cnt += w
+			w /= 2
+		}
+		if cnt >= len(nt) {
+			return "" // that would replace the root as well: not a tree under the signed root any more
+		}
+		copy(b.MerkleTree[:cnt], nt[:cnt])
+		return "accept"
 	case "droptree":
 		if len(b.MerkleTree) == 0 {
 			return ""
@@ -858,6 +875,14 @@ func randBlock(r *xvlib.Rng) *pb.InternalBlock {
 	return b
 }
 
+func leafCount(n int) int {
+	w := 1
+	for w < n {
+		w *= 2
+	}
+	return w
+}
+
 func mutationsFor(p base, r *xvlib.Rng, all bool) []string {
 	ms := []string{"none"}
 	hdr := []string{"inc:version", "inc:nonce", "inc:txcount", "dec:txcount", "inc:timestamp", "inc:curterm", "inc:curblocknum",
@@ -902,6 +927,11 @@ func mutationsFor(p base, r *xvlib.Rng, all bool) []string {
 			ms = append(ms, m+"+fixbody", m+"+inc:txcount", m+"+dec:txcount")
 			// coordinated tamper: the body and the carried merkle tree (outside id and signature) are changed together
 			ms = append(ms, m+"+fixleaves", m+"+fixtree")
+			if strings.HasPrefix(m, "txflip") || strings.HasPrefix(m, "txswap") {
+				for k, w := 2, leafCount(p.n)/4; w >= 2; k, w = k+1, w/2 {
+					ms = append(ms, fmt.Sprintf("%s+fixlevels:%d", m, k))
+				}
+			}
 		}
 	}
 	return ms
@@ -978,7 +1008,7 @@ func genC08(tier string, rng *xvlib.Rng, run func(string, bool)) {
 	run(fmt.Sprintf("vb %s m=none", base{n: 0, qc: -1, ph: 1}), true)
 	run(fmt.Sprintf("vb %s m=none", base{n: 2, qc: -1, ph: 0}), true)
 	out.Stats.Exhaustive = false
-	out.Stats.Rule = fmt.Sprintf("leaf: every n ≤ %d (+ neighbours of 2^10..2^12); shape: whole MakeMerkleTree array for every n ≤ 300; pre: %d random header field assignments (extracted schema bytes, double-SHA-256 checked against MakeBlockID); vb: node-formatted blocks with n ∈ %v transactions × %d parameter draws (justify none/0/1/3 signatures, 0–3 failed txs, target bits 0/5/-3/1, 3 proposer keys) × every single mutation of each header field, justify/failed-tx structure, body (drop/insert/duplicate/swap/alter/nil/truncate/shift at every position for n ≤ 9, else first/last/random) and signature, each alone and followed by the recomputations a forger can do (id, count, root; the leaves / all nodes below the root of the carried merkle tree, which is outside id and signature); a case is non-trivial unless it is leaf 0 / shape 0 / an unmutated block; distinct by op line", maxLeaf, nPre, ns, perN)
+	out.Stats.Rule = fmt.Sprintf("leaf: every n ≤ %d (+ neighbours of 2^10..2^12); shape: whole MakeMerkleTree array for every n ≤ 300; pre: %d random header field assignments (extracted schema bytes, double-SHA-256 checked against MakeBlockID); vb: node-formatted blocks with n ∈ %v transactions × %d parameter draws (justify none/0/1/3 signatures, 0–3 failed txs, target bits 0/5/-3/1, 3 proposer keys) × every single mutation of each header field, justify/failed-tx structure, body (drop/insert/duplicate/swap/alter/nil/truncate/shift at every position for n ≤ 9, else first/last/random) and signature, each alone and followed by the recomputations a forger can do (id, count, root; the leaves / the k lowest levels / all nodes below the root of the carried merkle tree, which is outside id and signature); a case is non-trivial unless it is leaf 0 / shape 0 / an unmutated block; distinct by op line", maxLeaf, nPre, ns, perN)
 	out.Stats.Notes = append(out.Stats.Notes,
 		"observations (distribution keys observation:*): fields outside the id — Height, FailedTxs keys, TargetBits ≤ 0, stored MerkleTree — and two-field boundary shifts (jshift, fshift) are accepted unchanged; a consistent block re-issued under another proposer+key (takeover) verifies (proposer entitlement is C16); transaction content with unchanged Txid (txcontent) is not seen by VerifyBlock (txid recomputation is C07); a formatted block with 0 transactions or empty PreHash does not verify",
 		"not covered: consensus CheckMinerMatch wrappers (C16 / C14)")
